@@ -248,6 +248,84 @@ def task_constant_tables(ctx):
     ctx.assume_note("concrete table check for Z <= 57 (beyond La the table is not indexed by atomic number and those elements are rejected elsewhere)")
 
 
+def replay_bintgs(module):
+    def rp(model):
+        """real bintgs at the model's x against numerical quadrature of int_{-1}^{1} t^k exp(-x t) dt"""
+        import importlib
+        import numpy as np
+        import torch
+
+        mod = importlib.import_module("seqm.seqm_functions." + module)
+        x = model_float(model, "x", 0.005)
+        got = mod.bintgs(torch.tensor([x], dtype=torch.float64), torch.tensor([12]))[0].numpy()
+        t, w = np.polynomial.legendre.leggauss(60)
+        want = np.array([np.sum(w * t ** k * np.exp(-x * t)) for k in range(len(got))])
+        err = np.abs(got - want)
+        return {"reproduced": bool(err.max() > 1e-6), "x": x, "max_abs_error": float(err.max()), "worst_index": int(err.argmax()), "computed": float(got[err.argmax()]), "quadrature": float(want[err.argmax()])}
+    return rp
+
+
+def task_overlap_aux_integrals(ctx):
+    """Auxiliary integrals of the Slater overlaps (all three overlap modules): A_k(x) = int_1^inf t^k e^{-x t} dt and
+    B_k(x) = int_{-1}^{1} t^k e^{-x t} dt.  Closed-form branches: the first member is the exact integral and every member is
+    minus the derivative of its predecessor (which pins all of them).  Series / small-argument branches of B_k: within 1e-6
+    of the exact power series on the whole domain of the branch (partial sum to x^15 plus a rigorous remainder bound)."""
+    import math
+
+    for module in ("diat_overlap_PM6_SP", "diat_overlap", "diat_overlapD"):
+        tgt = "seqm.seqm_functions.%s" % module
+        fa = ctx.under_contract(tgt + ":aintgs")
+        fb = ctx.under_contract(tgt + ":bintgs")
+        x = real("x")
+        # ---- A integrals (x > 0)
+        def thunk_a():
+            assume(x > 0)
+            return fa(st.tensor([x]), st.tensor([12]))
+
+        ex = ctx.explore(thunk_a, name=module + ".aintgs")
+        for p in ex.paths:
+            if p.raised is not None:
+                ctx.fail("%s.A.raises@p%d" % (module, p.path_id), repr(p.raised) + p.notes.get("traceback", "")[-500:])
+                continue
+            a = [Sym(resolve_ites(p.pc, v)) for v in p.value.a[0]]
+            ctx.prove_eq("%s.A_0 = exp(-x)/x@p%d" % (module, p.path_id), a[0], Sym(E.fn("exp", (-x).n)) / x, pc=p.pc)
+            for k in range(1, len(a)):
+                ctx.prove_eq("%s.A_%d = -dA_%d/dx@p%d" % (module, k, k - 1, p.path_id), a[k], -Sym(E.diff(E.node_of(a[k - 1]), x.n)), pc=p.pc)
+        # ---- B integrals
+        def thunk_b():
+            return fb(st.tensor([x]), st.tensor([12]))
+
+        ex = ctx.explore(thunk_b, name=module + ".bintgs", max_paths=16)
+        kinds = set()
+        tol = Fraction(1, 10**6)
+        K = 16
+        for p in ex.paths:
+            if p.raised is not None:
+                ctx.fail("%s.B.raises@p%d" % (module, p.path_id), repr(p.raised) + p.notes.get("traceback", "")[-500:])
+                continue
+            b = p.value.a[0]
+            closed = any(n.op == "exp" for n in E.postorder([E.node_of(b[0])]))
+            if closed:
+                kinds.add("closed")
+                ctx.prove_eq("%s.B_0 = (exp(x)-exp(-x))/x@p%d" % (module, p.path_id), b[0], (Sym(E.fn("exp", x.n)) - Sym(E.fn("exp", (-x).n))) / x, pc=p.pc)
+                for k in range(1, len(b)):
+                    ctx.prove_eq("%s.B_%d = -dB_%d/dx (closed form)@p%d" % (module, k, k - 1, p.path_id), b[k], -Sym(E.diff(E.node_of(b[k - 1]), x.n)), pc=p.pc)
+                continue
+            kinds.add("series")
+            # exact series  B_k(x) = sum_m (-x)^m/m! * (1 + (-1)^(m+k))/(m+k+1); remainder after m < K bounded by |x|^K/K! * 2/(K+k+1) * e^|x|
+            # (on these branches |x| <= 1/2, e^|x| < 2)
+            for k in range(len(b)):
+                partial = sum(((-x) ** m) * Fraction((1 + (-1) ** (m + k)), math.factorial(m) * (m + k + 1)) for m in range(K))
+                rem = Fraction(2 * 2, math.factorial(K) * (K + k + 1)) * Fraction(1, 2 ** K)
+                d = S(b[k]) - partial
+                ctx.prove("%s.B_%d within 1e-6 of the exact series on this branch@p%d" % (module, k, p.path_id), (d <= tol - rem) & (-d <= tol - rem), pc=list(p.pc),
+                          replay=replay_bintgs(module), classify=lambda m_, r: "small-argument-branch-too-wide" if r and r.get("reproduced") else "other")
+        if kinds != {"closed", "series"}:
+            ctx.error(module + ".B.paths", "expected closed-form and series branches, got %r" % kinds)
+    ctx.assume_note("A5/exp as a real function with exp' = exp; the closed-form branches are exact identities, the series branches are bounded for all x of the branch (univariate polynomial inequalities)")
+    ctx.undecided_clause("the combination of the auxiliary integrals into the local-frame overlaps (binomial coefficient tables), and the exponents' units")
+
+
 def task_extra_pm6_tables(ctx):
     """EXTRA (not part of the claimed C06 check: PM6 is outside the property): atomic_num[Z] = Z."""
     ctx.include_pm6_only_tables = True
@@ -464,5 +542,5 @@ def task_fock_uhf(ctx):
     ctx.canary_eq("exchange-uses-same-spin", F.a[0, 0, 1, 2], F.a[0, 1, 1, 2])
 
 
-TASKS_QUICK = ["constant_tables", "local_frame", "core_core", "fock", "fock_uhf", "hcore_assembly"]
+TASKS_QUICK = ["constant_tables", "overlap_aux_integrals", "local_frame", "core_core", "fock", "fock_uhf", "hcore_assembly"]
 TASKS_THOROUGH = TASKS_QUICK
